@@ -393,6 +393,24 @@ class Proc(object):
                     stack.extend(n.children)
             out.sort()
             return out
+        if fn == 'subwrite':
+            # the bracket writer applied to the k-th constituent below the root (raw preorder)
+            cands = []
+            stack = list(reversed(s.env[args[0]].children))
+            while stack:
+                n = stack.pop()
+                if n.children:
+                    cands.append(n)
+                    stack.extend(reversed(n.children))
+            if not cands:
+                return None
+            node = cands[args[1] % len(cands)]
+            buf = io.StringIO()
+            try:
+                R.treeoutput.brackets(node, buf)
+                return [s.reg.nid(node), 'written']
+            except ValueError:
+                return [s.reg.nid(node), 'refused']
         if fn == 'delete_terminal':
             root = s.env[args[0]]
             leaf = None
